@@ -162,6 +162,11 @@ class ReqWorld(object):
             self.cluster = self.w.make_cluster(**kw)
             self.session = self.cluster.connect(p.get('keyspace'), wait_for_all_pools=True)
             self.w.settle()
+            if p.get('id0'):
+                # the state every connection is in after ~300 requests: stream id 0 is the next one handed out
+                for c in self.w.conns:
+                    if c.request_ids and 0 in c.request_ids:
+                        c.request_ids.rotate(-list(c.request_ids).index(0))
             # from now on the explorer owns every application request and every task
             self.server.hold = self._hold
             self.w.manual = True
